@@ -1,6 +1,6 @@
 #!/bin/bash
 # tools/try_seed.sh <patch.diff> <tier> <ID> [ID...] : apply a seeded change to /repo, run checks, undo.
-patch="$1"; tier="$2"; shift 2
+patch="$(realpath "$1")"; tier="$2"; shift 2
 cd /verif
 git -C /repo diff --quiet || { echo "/repo dirty, abort"; exit 3; }
 git -C /repo apply "$patch" || { echo "patch does not apply"; exit 3; }
